@@ -55,7 +55,7 @@ pub fn add_completers(n: &mut Node, u: &mut Un, shell: bool) {
             }
         }
         Node::Cmd(c) => add_completers(&mut c.level.body, u, shell),
-        Node::Pure(_) | Node::Fail(_) => {}
+        Node::Pure(_) | Node::Fail(_) | Node::Any(_) => {}
         Node::Seq(xs) | Node::Alt(xs) | Node::Adjacent(xs) => {
             for x in xs {
                 add_completers(x, u, shell);
@@ -98,7 +98,7 @@ pub fn add_catch(n: &mut Node, u: &mut Un) {
                 add_catch(x, u);
             }
         }
-        Node::Named(_) | Node::Pos(_) | Node::Pure(_) | Node::Fail(_) => {}
+        Node::Named(_) | Node::Pos(_) | Node::Pure(_) | Node::Fail(_) | Node::Any(_) => {}
         Node::Collect { n, .. }
         | Node::Count(n)
         | Node::Last(n)
